@@ -22,9 +22,12 @@ package bytecode
 // EncodeSrc refuses (by panic) what it cannot represent; whatever it accepts must decode to itself.
 // No range precondition is assumed when the body is verified: the acceptance test is the code's,
 // the postcondition is the property's.
-//@ func EncodeSrc [C15]
+// The refusal itself is a Go panic: a program with more than 32767 constants or a jump further than
+// that aborts the interpreter instead of being rejected with an error. That panic is an obligation of
+// this unit (nopanic[srcAddr out of range]) and a listed open finding (C05, C15): repairing it means
+// returning errors through every byteCode method.
+//@ func EncodeSrc [C15,C05]
 //@   pure
-//@   maypanic
 //@   requires[sel]  0 <= srcsel && srcsel <= 2
 //@   requires[kind] src <= 7
 //@   callers[range;C15,C05] imm16(srcAddr)
